@@ -8,6 +8,7 @@ import SqlProofs.Group.SpecShape
 import SqlProofs.GroupNonEmpty
 import SqlProofs.GroupLeaves
 import SqlProofs.BracketsKept
+import SqlProofs.DelimChild.KwNorm
 /-!
 # C09 — bracketed and block groups are exactly the properly matched pairs
 
@@ -70,5 +71,13 @@ leaves (what `align_comments` attaches) -/
 theorem brackets_final_total : type_of% @Sql.brackets_end_with_closer_modulo_comments_total := @Sql.brackets_end_with_closer_modulo_comments_total
 /-- under the decidable `DelimSafe` the leaf sequence of every bracket/block node is `opener :: … ++ closer :: comments` -/
 theorem delimiters_kept_leafwise : type_of% @Sql.delims_kept_leafwise := @Sql.delims_kept_leafwise
+/-- **the delimiters are kept, child-wise** (SqlProofs/DelimChild, 21 files: one invariant `ListInv` carried through all 22 passes after the
+matching passes): for every flat statement satisfying the decidable `DelimSafe`, every Parenthesis / SquareBrackets / Case / If / For / Begin
+node of the final tree has its opening token as FIRST CHILD and its closing token as the last child before trailing whitespace / Comment
+groups — no later pass wraps, moves or re-types a delimiter.  (`DelimSafe` is evaluated by the driver command `delimsafe` on every generated
+statement; the statements it rejects are the absorbing neighbourhoods `(::int)`, `(x as)`, `case x , end`, … of KF-C07-1 and KF-C07-2.) -/
+theorem delimiters_kept_childwise : type_of% @Sql.delims_kept_childwise := @Sql.delims_kept_childwise
+/-- the same for any keyword normalisation that separates the block keywords (`DelimU`), at any recursion depth -/
+theorem delimiters_kept_childwise_generic : type_of% @Sql.DC.groupWith_delims_childwise := @Sql.DC.groupWith_delims_childwise
 
 end Sql.C09
